@@ -207,4 +207,147 @@ impl<'a> LTr<'a> {
         }
         Ok((format!("(List.filter (fun {name} => {b}) {xs})"), LTy::List(Box::new(elem.clone()))))
     }
+
+    /// `if c { a } else { b }` in tail position of the function body: every branch ends the function
+    fn if_tail(&mut self, i: &ExprIf) -> R<()> {
+        if matches!(&*i.cond, Expr::Let(_)) {
+            return Err("if let".into());
+        }
+        let (c, _) = self.expr(&i.cond)?;
+        self.emit(format!("if {c} then"));
+        self.tail_block(&i.then_branch)?;
+        let (_, els) = i.else_branch.as_ref().ok_or("value `if` without else")?;
+        self.emit("else".into());
+        match &**els {
+            Expr::Block(b) => self.tail_block(&b.block)?,
+            Expr::If(j) => {
+                self.ind += 1;
+                self.if_tail(j)?;
+                self.ind -= 1;
+            }
+            _ => return Err("else branch".into()),
+        }
+        Ok(())
+    }
+
+    fn tail_block(&mut self, b: &Block) -> R<()> {
+        self.ind += 1;
+        let saved = self.vars.clone();
+        let before = self.lines.len();
+        if let Some(v) = self.block(b, true)? {
+            let e = self.exit(&v);
+            self.emit(e);
+        } else if self.lines.len() == before {
+            return Err("branch without a value".into());
+        }
+        self.vars = saved;
+        self.ind -= 1;
+        Ok(())
+    }
+
+    /// `match x { E::A => a, E::B => b }` on an enum of the main translation whose variants carry nothing
+    fn match_unit_enum(&mut self, m: &ExprMatch, scrut: &str, en: &str, lhs: Option<&str>) -> R<LTy> {
+        let value = lhs.is_some();
+        let variants = self.reg.enums.get(en).cloned().ok_or("unknown enum")?;
+        self.emit(match lhs {
+            Some(l) => format!("{l} ← match {scrut} with"),
+            None => format!("match {scrut} with"),
+        });
+        let mut ty = LTy::Unknown;
+        for a in &m.arms {
+            if a.guard.is_some() {
+                return Err("guard on an enum arm".into());
+            }
+            let pat = match &a.pat {
+                Pat::Path(p) if p.path.segments.len() >= 2 && p.path.segments[p.path.segments.len() - 2].ident == en => {
+                    let v = path_last(&p.path);
+                    if !variants.iter().any(|(n, _)| *n == v) {
+                        return Err(format!("unknown variant {v}"));
+                    }
+                    format!("Gen.{en}.{v}")
+                }
+                Pat::Wild(_) => "_".to_string(),
+                _ => return Err("enum pattern".into()),
+            };
+            self.emit(format!("| {pat} =>"));
+            let t = self.arm_value(&a.body, value)?;
+            if ty == LTy::Unknown {
+                ty = t;
+            } else if t != LTy::Unknown && t != ty {
+                return Err("match arms of different types".into());
+            }
+        }
+        Ok(ty)
+    }
+
+    /// calls that involve an `AesKind` type: `C::Cipher::new(GenericArray::from_slice(key))` inside the generic key
+    /// stream, and `[module::]Type::<Kind>::f(args)` of a translated generic function
+    fn kind_calls(&mut self, c: &ExprCall, segs: &[String], args: &[&Expr]) -> R<Option<(String, LTy)>> {
+        let path = match &*c.func {
+            Expr::Path(p) => &p.path,
+            _ => return Ok(None),
+        };
+        // `C::Cipher::new(GenericArray::from_slice(key))`: `from_slice` asserts the key length of the cipher
+        if segs.len() == 3 && segs[1] == "Cipher" && segs[2] == "new" && args.len() == 1 {
+            let cp = &segs[0];
+            if !self.sig.tparams.iter().any(|(n, b)| n == cp && b.iter().any(|x| x == "Cipher:KeyInit")) {
+                return Err(format!("`{cp}::Cipher::new` without the bound `{cp}::Cipher: KeyInit`"));
+            }
+            let key = match args[0] {
+                Expr::Call(k) if k.args.len() == 1 && matches!(&*k.func, Expr::Path(p) if path_segs(&p.path) == ["GenericArray", "from_slice"]) => &k.args[0],
+                _ => return Err("key of a cipher that is not `GenericArray::from_slice(..)`".into()),
+            };
+            let (kv, kt) = self.expr(key)?;
+            if kt != LTy::Bytes {
+                return Err("key that is not a byte slice".into());
+            }
+            let v = self.opt_tmp(&format!("Rs.AesBlock.new {cp} {kv}"));
+            return Ok(Some((v, LTy::Ext("Rs.AesBlock".into()))));
+        }
+        // `[module::]Type::<Kind>::f(args)`
+        let n = path.segments.len();
+        if n >= 2 {
+            let tseg = &path.segments[n - 2];
+            let kinds: Vec<String> = generic_args(tseg).iter().filter_map(|t| match t { Type::Path(p) => Some(path_last(&p.path)), _ => None }).collect();
+            if !kinds.is_empty() {
+                let key = format!("{}::{}", tseg.ident, segs[n - 1]);
+                if self.failed.contains(&key) {
+                    return Err(format!("call of untranslated {key}"));
+                }
+                let s = match self.lreg.fns.get(&key) {
+                    Some(s) => s,
+                    // not a translated function: the vocabulary tables decide
+                    None => return Ok(None),
+                };
+                if kinds.len() != s.tparams.len() || kinds.iter().any(|k| !self.lreg.kinds.contains(k) || self.failed.contains(k)) {
+                    return Err("type arguments that are not translated kinds".into());
+                }
+                let targs: String = s.tparams.iter().zip(kinds.iter()).map(|((p, _), k)| format!(" ({p} := Gen.{k})")).collect();
+                let r = self.call_lfn(&format!("Gen.{}.{}{targs}", tseg.ident, segs[n - 1]), s, None, args)?;
+                // the result's type parameter is the kind
+                let r = match r {
+                    (v, LTy::Adt(t, _)) => (v, LTy::Adt(t, kinds.iter().map(|k| LTy::Adt(k.clone(), vec![])).collect())),
+                    other => other,
+                };
+                return Ok(Some(r));
+            }
+        }
+        Ok(None)
+    }
+}
+
+/// does the `if` produce a value (its first branch ends in an expression that is not a statement)?
+fn value_if(i: &ExprIf) -> bool {
+    i.else_branch.is_some()
+        && match i.then_branch.stmts.last() {
+            Some(Stmt::Expr(e, None)) => match e {
+                Expr::If(j) => value_if(j),
+                Expr::Return(_) | Expr::ForLoop(_) | Expr::While(_) | Expr::Assign(_) | Expr::Block(_) => false,
+                Expr::Binary(b) if is_assign_op(&b.op) => false,
+                Expr::Match(_) => false,
+                Expr::Tuple(t) if t.elems.is_empty() => false,
+                _ => true,
+            },
+            _ => false,
+        }
 }
